@@ -40,6 +40,8 @@ structure Ev where
   dest : Dest
   /-- bytes `MarshalMsg` appends for this event; `none`: `MarshalMsg` returns an error -/
   size : Option Nat
+  /-- `EnqueuedUnixMicro`: the clock when `EnqueueEvent` took the event (set by `enq`) -/
+  t : Nat := 0
   deriving DecidableEq, Repr
 
 /-! ## 1. splitting -/
@@ -121,6 +123,9 @@ inductive RetryAfter where
 inductive Resp where
   | timeout                                   -- error with `Timeout() == true`
   | netErr                                    -- any other error
+  /-- `decodeErr`: reading / decoding the body fails in a way the code counts as
+  `_response_decode_errors` (an undecodable JSON body of a 200 is logged but not counted: the JSON
+  branch assigns a shadowed `err`).  `statuses`: the per-event statuses decoded from a 200. -/
   | http (code : Nat) (ra : RetryAfter) (decodeErr : Bool) (statuses : List Nat)
   deriving Repr
 
@@ -231,12 +236,14 @@ structure Cfg where
   bt : Nat                  -- BatchTimeout (ns)
   badUrl : Dest → Bool      -- `buildRequestURL` returns an error for this destination
 
+/-- every skipped event went through handleEventError: one error, one Down -/
+def countDropped (n : Nat) (acc : Acc) : Acc :=
+  let c := acc.ctr
+  { acc with ctr := { c with rerr := c.rerr + n, downs := c.downs + n } }
+
 /-- the body of one iteration of the outer loop after the packing -/
 def sendChunk (cfg : Cfg) (script : List Srv) (now : Nat) (i : Nat) (ch : Chunk) (acc : Acc) : Acc :=
-  -- every skipped event went through handleEventError: one error, one Down
-  let c := acc.ctr
-  let c := { c with rerr := c.rerr + ch.dropped.length, downs := c.downs + ch.dropped.length }
-  let acc := { acc with ctr := c }
+  let acc := countDropped ch.dropped.length acc
   if ch.sub.isEmpty then acc                                   -- `continue`
   else if cfg.badUrl ch.dest then                              -- "failed to create request URL"
     { acc with ctr := batchFailure ch.sub.length acc.ctr }
@@ -298,8 +305,8 @@ def record (cfg : Cfg) (s : St) (ds : List Disp) : St :=
            ctr := ds.foldl (fun c d => c.add (d.out cfg).ctr) s.ctr,
            complete := s.complete && ds.all (fun d => (split d.events).2) }
 
-/-- `EnqueueEvent` -/
-def enq (cfg : Cfg) (s : St) (e : Ev) (script : List Srv) : St :=
+/-- `EnqueueEvent` for an event already stamped with its enqueue time -/
+def enq1 (cfg : Cfg) (s : St) (e : Ev) (script : List Srv) : St :=
   if s.stopped then { s with panicked := true }
   else
     let b := (AList.get s.batches e.dest).getD ⟨[], 0⟩
@@ -312,6 +319,10 @@ def enq (cfg : Cfg) (s : St) (e : Ev) (script : List Srv) : St :=
           [⟨e.dest, evs, st, s.now, .size, script⟩]
       else { s with batches := AList.put s.batches e.dest ⟨evs, st⟩ }
     { s with ctr := { s.ctr with ups := s.ctr.ups + 1 } }
+
+/-- `EnqueueEvent`: `ev.EnqueuedUnixMicro = Clock.Now()`, then batching -/
+def enq (cfg : Cfg) (s : St) (e : Ev) (script : List Srv) : St :=
+  enq1 cfg s { e with t := s.now } script
 
 def stale (cfg : Cfg) (now : Nat) (b : Batch) : Bool :=
   !b.events.isEmpty && decide (b.start + cfg.bt ≤ now)
